@@ -47,10 +47,38 @@ Proof.
   destruct mtime as [t|]; repeat rewrite <- app_assoc; cbn [app]; reflexivity.
 Qed.
 
+(** the pull streamer: `cat $'<path>'` *)
+Theorem tie_pull_command (remote_path : list Z) : g_pull_command remote_path = [99; 97; 116; 32] ++ quoted_word remote_path.
+Proof. unfold g_pull_command, quoted_word. cbv zeta. rewrite replace_bsl_no_sq. change SQ with 39. reflexivity. Qed.
+
+(** the remote scan: `cd $'<root>' && find . -type f -printf '%s\t%T@\t%p\0'` - size TAB mtime TAB path NUL per regular file,
+    the records [parse_listing] (tied to the source by Proofs/TieListing.v) takes apart *)
+Definition find_printf : list Z :=
+  [32; 38; 38; 32; 102; 105; 110; 100; 32; 46; 32; 45; 116; 121; 112; 101; 32; 102; 32; 45; 112; 114; 105; 110; 116; 102; 32;
+   39; 37; 115; 92; 116; 37; 84; 64; 92; 116; 37; 112; 92; 48; 39].
+Theorem tie_list_command (remote_root : list Z) : g_list_command remote_root = [99; 100; 32] ++ quoted_word remote_root ++ find_printf.
+Proof. unfold g_list_command, quoted_word, find_printf. cbv zeta. rewrite replace_bsl_no_sq. change SQ with 39. repeat rewrite <- app_assoc. reflexivity. Qed.
+
+(** the directories a push creates first: the root, then `<root>/<dir>` for every directory of the plan, NUL-terminated,
+    handed to `xargs -0 mkdir -p` *)
+Lemma mkdir_loop (remote_root : list Z) (dirs : list (list Z)) (acc : list Z) :
+  for_loop dirs (fun dir => fun dir_list => let dir_list := dir_list ++ (remote_root ++ [47] ++ dir ++ [0]) in (inl dir_list : list Z + list Z)) acc
+  = inl (acc ++ nul_list (map (fun d => remote_root ++ [47] ++ d) dirs)).
+Proof.
+  revert acc; induction dirs as [|d dirs IH]; intros acc; cbn [for_loop map nul_list flat_map]; [rewrite app_nil_r; reflexivity|].
+  cbv zeta. rewrite IH. unfold nul_list. rewrite <- !app_assoc. reflexivity.
+Qed.
+Theorem tie_mkdir_list (remote_root : list Z) (dirs : list (list Z)) :
+  g_mkdir_list remote_root dirs = nul_list (remote_root :: map (fun d => remote_root ++ [47] ++ d) dirs).
+Proof. unfold g_mkdir_list. cbv zeta. rewrite mkdir_loop. reflexivity. Qed.
+
 Definition push_command_is_translation : Prop :=
-  forall remote_path file_size mtime, g_push_command remote_path file_size mtime = push_command remote_path file_size mtime.
+  (forall remote_path file_size mtime, g_push_command remote_path file_size mtime = push_command remote_path file_size mtime) /\
+  (forall remote_path, g_pull_command remote_path = [99; 97; 116; 32] ++ quoted_word remote_path) /\
+  (forall remote_root, g_list_command remote_root = [99; 100; 32] ++ quoted_word remote_root ++ find_printf) /\
+  (forall remote_root dirs, g_mkdir_list remote_root dirs = nul_list (remote_root :: map (fun d => remote_root ++ [47] ++ d) dirs)).
 Lemma push_command_is_translation_holds : push_command_is_translation.
-Proof. exact tie_push_command. Qed.
+Proof. split; [exact tie_push_command|]. split; [exact tie_pull_command|]. split; [exact tie_list_command|exact tie_mkdir_list]. Qed.
 
 Example push_command_nonvacuous :
   firstn 12 (g_push_command [97; 39; 98] 3 None) = [99; 97; 116; 32; 62; 32; 36; 39; 97; 92; 39; 98].
